@@ -614,7 +614,9 @@ class TheEvaluateHelper(TopLevel):
                                       z3.And(row.contains(Z.nid(n)), row.get(Z.nid(n)) == row.get(Z.nid(var)))))
             elif isinstance(v, D):
                 # `sources` handed back: only when already bound, or when false rows were requested and none was found
-                eng.oblige(st, "C06/returns-only-a-found-solution", z3.Or(bound, f))
+                # (or the stream's only row was that very object, R8)
+                found = z3.BoolVal(v.ref == st.ghost.get('alias_row_ref'))
+                eng.oblige(st, "C06/returns-only-a-found-solution", z3.Or(bound, f, found))
             else:
                 eng.oblige(st, "C06/returns-only-a-found-solution", z3.BoolVal(False))
         elif o.sig == RAISE:
